@@ -273,14 +273,71 @@ func recoverStores(j *journal, cut int, dropUnsynced bool) map[string]*jds {
 
 // ---------------------------------------------------------------------------------------------
 
+// The key pool is built so that datastore buckets are shared: ids 0-3 have the same first 16 bits of kademlia
+// identifier (one bucket for prefixBits 8 and 16) and differ within the next 4, ids 4-7 share their first 8 bits only,
+// the rest are unrelated. Queries for prefixes longer than prefixBits then have to post-filter a bucket that holds
+// matching and non-matching keys.
+var ksNonce = func() [16]int {
+	var out [16]int
+	sum := func(n int) [32]byte {
+		h, _ := mh.Sum([]byte(fmt.Sprintf("verif-ks-%d", n)), mh.SHA2_256, -1)
+		return sha256.Sum256(h)
+	}
+	n := 0
+	next := func(ok func(s [32]byte) bool) int {
+		for {
+			n++
+			if ok(sum(n)) {
+				return n
+			}
+		}
+	}
+	out[0] = next(func(s [32]byte) bool { return true })
+	a := sum(out[0])
+	for i := 1; i < 4; i++ {
+		i := i
+		out[i] = next(func(s [32]byte) bool {
+			if s[0] != a[0] || s[1] != a[1] {
+				return false
+			}
+			for j := 0; j < i; j++ {
+				if sum(out[j])[2]>>4 == s[2]>>4 {
+					return false
+				}
+			}
+			return true
+		})
+	}
+	out[4] = next(func(s [32]byte) bool { return s[0] != a[0] })
+	b := sum(out[4])
+	for i := 5; i < 8; i++ {
+		i := i
+		out[i] = next(func(s [32]byte) bool {
+			if s[0] != b[0] {
+				return false
+			}
+			for j := 4; j < i; j++ {
+				if sum(out[j])[1] == s[1] {
+					return false
+				}
+			}
+			return true
+		})
+	}
+	for i := 8; i < 16; i++ {
+		out[i] = next(func(s [32]byte) bool { return s[0] != a[0] && s[0] != b[0] })
+	}
+	return out
+}()
+
 func ksMH(id int) mh.Multihash {
-	h, _ := mh.Sum([]byte(fmt.Sprintf("verif-ks-%d", id)), mh.SHA2_256, -1)
+	h, _ := mh.Sum([]byte(fmt.Sprintf("verif-ks-%d", ksNonce[id%16])), mh.SHA2_256, -1)
 	return h
 }
 
 func ksBits(id int) string {
 	s := sha256.Sum256(ksMH(id))
-	return fmt.Sprintf("%08b%08b", s[0], s[1])
+	return fmt.Sprintf("%08b%08b%08b", s[0], s[1], s[2])
 }
 
 var ksIDs = func() map[string]int {
@@ -740,7 +797,7 @@ func TestVerifC20(t *testing.T) {
 				return strings.Join(ss, ",")
 			}
 			prefix := func() string {
-				l := []int{0, 1, 2, 3, 8, 9, 10, 12}[r.Intn(8)]
+				l := []int{0, 1, 2, 3, 8, 9, 10, 12, 16, 17, 18, 20}[r.Intn(12)]
 				b := ksBits(r.Intn(12))
 				if r.Chance(1, 4) {
 					// a prefix that may match nothing
